@@ -12,15 +12,16 @@ TRUSTED = ["each handler's context is watched by a harness goroutine; 'cancelled
 ASSUMPTIONS = ["the peer uses pairwise distinct seqnos for calls that are in flight together"]
 
 
-def scenarios(k, kinds, order, acts, closepos, closekind, ident):
+def scenarios(k, kinds, order, acts, closepos, closekind, ident, tagged=None):
     """kinds[i] in 'c','n'; order: permutation of range(k); acts[i] in 'f' (finish), 'x' (peer cancels, then finish);
     closepos in 0..k or None"""
     s = []
     for i in range(k):
+        tg = ("m", [(("s", b"tag%d" % i), ("s", b"v%d" % i))]) if tagged and tagged[i] else None
         if kinds[i] == "c":
-            s.append(scn.feed_call(10 + i, 100 + i))
+            s.append(scn.feed_call(10 + i, 100 + i, tags=tg))
         else:
-            s.append(scn.feed_notify(100 + i))
+            s.append(scn.feed_notify(100 + i, tags=tg))
         s.append("waithandlers/%d" % (i + 1))
     s.append("settle")
 
@@ -42,6 +43,8 @@ def scenarios(k, kinds, order, acts, closepos, closekind, ident):
     if closepos == k:
         do_close()
     fam = "notify-overlap" if kinds.count("n") >= 2 else ("single-notify" if "n" in kinds else "calls")
+    if tagged and any(tagged):
+        fam += "-tagged"
     return scn.line("scn", ident, s, extra="nt=%d family=%s" % (1 if k >= 2 else 0, fam))
 
 
@@ -65,7 +68,8 @@ def explore(ctx):
                                     continue
                                 if k >= 4 and rng.below(12) != 0:
                                     continue
-                                lines.append(scenarios(k, kinds, order, acts, closepos, closekind, "s%d" % n))
+                                tagged = [rng.chance(1, 2) for _ in range(k)] if rng.chance(1, 2) else None
+                                lines.append(scenarios(k, kinds, order, acts, closepos, closekind, "s%d" % n, tagged))
                                 n += 1
         if tier == "thorough":
             for _ in range(1500):
@@ -74,7 +78,8 @@ def explore(ctx):
                 order = rng.shuffle(list(range(k)))
                 acts = ["x" if kinds[i] == "c" and rng.chance(1, 3) else "f" for i in range(k)]
                 closepos = rng.choice([None] + list(range(k + 1)))
-                lines.append(scenarios(k, kinds, order, acts, closepos, rng.choice(["close", "eof"]), "s%d" % n))
+                lines.append(scenarios(k, kinds, order, acts, closepos, rng.choice(["close", "eof"]), "s%d" % n,
+                                       [rng.chance(1, 2) for _ in range(k)]))
                 n += 1
         # long histories: one call is cancelled by the peer but its handler keeps running while many more requests
         # arrive; when it finally returns nobody else may be affected
